@@ -86,6 +86,10 @@ pub struct Params {
     pub k_glwe: u32,
     pub k_ggsw: u32,
     pub ggsw_dnum: u32,
+    /// false (the suite): packed word -> rank-1 GLWE (ks_glwe) -> LWE (ks_lwe); true: no intermediate key, ks_lwe
+    /// switches from the rank of the packed word directly (BDDKeyLayout.ks_glwe_layout = None)
+    #[serde(default)]
+    pub direct_ks: bool,
 }
 
 impl Params {
@@ -99,6 +103,7 @@ impl Params {
             k_glwe: 26,
             k_ggsw: 39,
             ggsw_dnum: 2,
+            direct_ks: false,
         }
     }
     pub fn glwe_infos(&self) -> GLWELayout {
@@ -152,20 +157,24 @@ impl Params {
                     dsize: Dsize(1),
                 },
             },
-            ks_glwe_layout: Some(GLWESwitchingKeyLayout {
-                n,
-                base2k: Base2K(4),
-                k: TorusPrecision(20),
-                rank_in: rank,
-                rank_out: Rank(1),
-                dnum: Dnum(3),
-                dsize: Dsize(1),
-            }),
+            ks_glwe_layout: if self.direct_ks {
+                None
+            } else {
+                Some(GLWESwitchingKeyLayout {
+                    n,
+                    base2k: Base2K(4),
+                    k: TorusPrecision(20),
+                    rank_in: rank,
+                    rank_out: Rank(1),
+                    dnum: Dnum(3),
+                    dsize: Dsize(1),
+                })
+            },
             ks_lwe_layout: GLWEToLWEKeyLayout {
                 n,
                 base2k: Base2K(4),
                 k: TorusPrecision(16),
-                rank_in: Rank(1),
+                rank_in: if self.direct_ks { rank } else { Rank(1) },
                 dnum: Dnum(3),
             },
         }
